@@ -638,3 +638,10 @@ func ZZ_C01_interface_kept_while_held() {
 	zz.Assert(zz.Implies(ok, !anyHeld), "an interface with an address held by a pod - in either family - is never given up")
 	zz.Assert(zz.Implies(ok, zz.And(!l.eni.Trunk, l.eniType != "trunk", l.eniType != "erdma")), "trunk and RDMA interfaces are never given up")
 }
+
+// C01 (an address is handed to at most one pod, and only while the cloud
+// assigns it to the node): when the dispose worker has deleted an interface
+// the slot forgets all of its addresses, IPv4 and IPv6, before it is reused.
+// Same exploration as ZZ_C06_factory_dispose_args.
+// zz:noreplay the schedule is chosen by the engine
+func ZZ_C01_deleted_interface_leaves_no_address() { zzDisposeIteration() }
